@@ -62,7 +62,7 @@ def run_c13(out, tier, seed, replay):
     sel = list(progs_all)
     pidx = {p["name"]: i + 1 for i, p in enumerate(sel)}
     byname = {p["name"]: p for p in sel}
-    mono = [p for p in sel if "life" in p["tags"] and "core" in p["tags"]]
+    mono = [p for p in sel if "life" in p["tags"] and ("core" in p["tags"] or "mono" in p["tags"])]
     cases, meta = [], {}
     cid = 0
 
@@ -100,7 +100,7 @@ def run_c13(out, tier, seed, replay):
     # ---- (b) idempotence: run; run; run on every program of the corpus
     gen, by = semlib.enumerate_inputs(sel, work, "quick")
     out.add_tlc(gen, "SemGen (input databases for the idempotence histories)")
-    cap = 25 if tier == "quick" else 200
+    cap = 50 if tier == "quick" else 400
     for p in sel:
         chosen = sem.select_cases(by.get(p["name"], []), cap, rnd)
         for c in chosen:
@@ -119,7 +119,7 @@ def run_c13(out, tier, seed, replay):
     out.extra["histories_with_pushes"] = n_hist
     out.rule = ("(a) TLC (LifeGen) enumerates every history push* run (push run) with <= 1 input fact and <= 1 later fact, and simulates "
                 f"{nsim} random histories with 3 runs and <= 2 facts pushed between runs into any plain relation (input or derived), for the "
-                "corpus programs without negation/aggregation/lattices tagged `life`; (b) run;run;run on TLC-enumerated inputs of every corpus "
+                "corpus programs without negation/aggregation tagged `life` (plus the lattice programs tagged `mono`, whose later strata read lattice values through upward-closed tests only - a non-monotone read such as copying the value is outside the property: TLC refutes IncrementalEqualsFresh for it at the model level; facts are pushed into plain relations only); (b) run;run;run on TLC-enumerated inputs of every corpus "
                 "program (serial and parallel). A case = (program, variant, history). Non-trivial = the final least model has derived tuples.")
     out.assumptions = ["pushed tuples are never already present (TLC only chooses tuples outside the current least model)",
                        "lattice relations are not pushed into after a run"]
